@@ -129,5 +129,11 @@ fn main() {
             std::process::exit(2);
         }
     };
+    // the witnesses of this property's repaired findings are re-run by every check (the checks that attribute
+    // cases to open findings have done so already)
+    let mut report = report;
+    if !["C01", "C02", "C04", "C08", "C09", "C14", "C15", "C17"].contains(&id.as_str()) {
+        let _ = active_findings(&ctx, &mut report);
+    }
     std::process::exit(finish(&ctx, report));
 }
